@@ -70,13 +70,55 @@ fn writer_frame(data: &[u8], level: u8) -> Vec<u8> {
     w.into_inner()
 }
 
-pub fn build_frame(method: &str, data: &[u8]) -> Vec<u8> {
-    match method.as_bytes()[0] {
-        b'e' => EOF_MARKER.to_vec(),
-        b'h' => hand_frame(data, method[1..].parse().unwrap()),
-        b'w' => writer_frame(data, method[1..].parse().unwrap()),
-        _ => panic!("method {method}"),
+/// the corruption suffix of a method (`w6!c` -> Some("c")):
+///   c  CRC32 bit flipped            (parse_block fails after the block was initialised: "late")
+///   p  BFINAL of the first DEFLATE block flipped                                    (late)
+///   s  ISIZE made one smaller                                                         (late)
+///   m  gzip magic flipped           (parse_frame fails, the block is untouched: "early")
+///   i  ISIZE := 65537                                                                 (early)
+///   z  BSIZE := 10 and the file ends after the 18-byte header (read_frame_into: InvalidData)
+///   t<k> the frame is cut to its first k bytes, 18 <= k < size (read_frame_into: UnexpectedEof)
+/// z and t only as the last frame of a file.
+pub fn bad_of(method: &str) -> Option<&str> {
+    method.split_once('!').map(|(_, b)| b)
+}
+
+fn corrupt(fr: &mut Vec<u8>, what: &str) {
+    let n = fr.len();
+    match what.as_bytes()[0] {
+        b'c' => fr[n - 8] ^= 1,
+        b'p' => fr[18] ^= 1,
+        b's' => {
+            let isz = u32::from_le_bytes(fr[n - 4..].try_into().unwrap());
+            fr[n - 4..].copy_from_slice(&(isz - 1).to_le_bytes());
+        }
+        b'm' => fr[0] ^= 0x10,
+        b'i' => fr[n - 4..].copy_from_slice(&65537u32.to_le_bytes()),
+        b'z' => {
+            fr[16] = 10;
+            fr[17] = 0;
+            fr.truncate(18);
+        }
+        b't' => fr.truncate(what[1..].parse().unwrap()),
+        _ => panic!("corruption {what}"),
     }
+}
+
+pub fn build_frame(method: &str, data: &[u8]) -> Vec<u8> {
+    let (base, bad) = match method.split_once('!') {
+        Some((b, c)) => (b, Some(c)),
+        None => (method, None),
+    };
+    let mut fr = match base.as_bytes()[0] {
+        b'e' => EOF_MARKER.to_vec(),
+        b'h' => hand_frame(data, base[1..].parse().unwrap()),
+        b'w' => writer_frame(data, base[1..].parse().unwrap()),
+        _ => panic!("method {method}"),
+    };
+    if let Some(c) = bad {
+        corrupt(&mut fr, c);
+    }
+    fr
 }
 
 pub fn fmt_frames(fs: &[FSpec]) -> String {
